@@ -510,9 +510,19 @@ def productive_spec(rng, max_classes: int = 6, opts=None, expansion: bool = Fals
 def reflect(considered: list[type], start: type, expansion: bool = False):
     """Convert real classes into a Spec by the harness's own reflection (independent of
     Grammar.register_type): returns (Spec, Built)."""
+    import inspect
     import typing
-    from geneticengine.grammar.utils import get_arguments, is_abstract
+    from geneticengine.grammar.utils import is_abstract
     seen: list[type] = []
+
+    def get_arguments(c: type):
+        """the CONSTRUCTOR's parameters with their declared types, read by the harness itself (signature + type hints of
+        `__init__`): attributes that are not constructor parameters are not children of a program"""
+        init = getattr(c, "__init__", None)
+        if init is None or init is object.__init__:
+            return []
+        hints = typing.get_type_hints(init, globalns=sys.modules[c.__module__].__dict__, include_extras=True)
+        return [(p, hints[p]) for p in inspect.signature(init).parameters if p not in ("self", "args", "kwargs") and p in hints]
 
     def visit_cls(c: type):
         if c in seen or c in (int, float, str, bool, object, ABC):
